@@ -56,6 +56,22 @@ theorem give_conserved (s : St) (t f : Nat) (x : Item) (h : Conserved s) : Conse
       · subst hxy; simp [List.countP_append, List.countP_cons]; omega
       · simp [List.countP_append, List.countP_cons, hxy]; omega
 
+/-- a mode-2 push is a give that never finds the queue over capacity -/
+theorem giveNB_eq (s : St) (f : Nat) (x : Item) :
+    giveNB s f x = { give { s with limit := s.items.length + 1 } 0 f x with limit := s.limit } := by
+  unfold giveNB give
+  by_cases hc : s.closed = true
+  · simp only [hc, if_true]
+    cases s; simp_all
+  · simp only [hc]
+    cases hr : s.readers with
+    | nil => simp
+    | cons r rs => simp
+
+theorem giveNB_conserved (s : St) (f : Nat) (x : Item) (h : Conserved s) : Conserved (giveNB s f x) := by
+  rw [giveNB_eq]
+  exact give_conserved { s with limit := s.items.length + 1 } 0 f x h
+
 theorem take_conserved (s : St) (t f : Nat) (h : Conserved s) : Conserved (take s t f) := by
   intro y
   have hy := h y
@@ -216,6 +232,7 @@ theorem step_conserved (cfg : Cfg) (hq : cfg.requeue = true) (hd : cfg.redispatc
   | handle i => exact handle_conserved cfg hq hd s i h
   | close t => exact close_conserved s t h
   | resume i => exact resume_conserved cfg s i h
+  | giveNB f x => exact giveNB_conserved s f x h
 
 theorem run_conserved (cfg : Cfg) (hq : cfg.requeue = true) (hd : cfg.redispatch = true) :
     ∀ (acts : List Act) (s : St), Conserved s → Conserved (run cfg acts s) := by
@@ -234,6 +251,7 @@ theorem step_stale_mono (cfg : Cfg) (s : St) (a : Act) : s.staleReads ≤ (step 
   | handle i => exact handle_stale_mono cfg s i
   | close t => show s.staleReads ≤ (close s t).staleReads; unfold close; (repeat' split) <;> first | exact Nat.le_refl _ | simp
   | resume i => show s.staleReads ≤ (resume cfg s i).staleReads; rw [(resume_frame cfg s i).2.2.2.2.2.2]; exact Nat.le_refl _
+  | giveNB f x => show s.staleReads ≤ (giveNB s f x).staleReads; unfold giveNB; (repeat' split) <;> first | exact Nat.le_refl _ | simp
 
 theorem step_conserved_partial (cfg : Cfg) (s : St) (a : Act) (hz : (step cfg s a).staleReads = s.staleReads)
     (h : Conserved s) : Conserved (step cfg s a) := by
@@ -244,6 +262,7 @@ theorem step_conserved_partial (cfg : Cfg) (s : St) (a : Act) (hz : (step cfg s 
   | handle i => exact handle_conserved' cfg s i (Or.inr hz) h
   | close t => exact close_conserved s t h
   | resume i => exact resume_conserved cfg s i h
+  | giveNB f x => exact giveNB_conserved s f x h
 
 theorem run_stale_mono (cfg : Cfg) : ∀ (acts : List Act) (s : St), s.staleReads ≤ (run cfg acts s).staleReads := by
   intro acts
@@ -286,6 +305,22 @@ theorem cb_fifo (cfg : Cfg) (s : St) (m : Msg) (hz : (cb cfg s m).staleReads = s
       exfalso
       revert hz
       (repeat' split) <;> first | contradiction | simp
+
+theorem step_fifo_give (s : St) (t f : Nat) (x : Item) (h : Fifo s) : Fifo (give s t f x) := by
+  unfold give Fifo at *
+  obtain ⟨h1, h2⟩ := h
+  split
+  · exact ⟨h1, h2⟩
+  · split
+    · rename_i r rs hr
+      have hi : s.items = [] := by
+        rcases h1 with h1 | h1
+        · rw [hr] at h1; cases h1
+        · exact h1
+      simp [hi] at h2 ⊢
+      simp [hi, ← h2]
+    · rename_i hr
+      split <;> simp [hr, ← h2, List.append_assoc]
 
 theorem step_fifo (cfg : Cfg) (s : St) (a : Act) (hz : (step cfg s a).staleReads = s.staleReads) (h : Fifo s) :
     Fifo (step cfg s a) := by
@@ -332,6 +367,12 @@ theorem step_fifo (cfg : Cfg) (s : St) (a : Act) (hz : (step cfg s a).staleReads
     show Fifo (resume cfg s i)
     obtain ⟨h1, _, _, h4, h5, h6, _⟩ := resume_frame cfg s i
     unfold Fifo; rw [h1, h4, h5, h6]; exact h
+  | giveNB f x =>
+    show Fifo (giveNB s f x)
+    rw [giveNB_eq]
+    have h' : Fifo { s with limit := s.items.length + 1 } := h
+    have := step_fifo_give { s with limit := s.items.length + 1 } 0 f x h'
+    exact this
   | handle i =>
     show Fifo (handle cfg s i)
     have hz' : (handle cfg s i).staleReads = s.staleReads := hz
